@@ -379,3 +379,47 @@ def coq_term_eq(case):
     t = {'D': 'd_eq_case %s repaired' % hs, 'U': 'u_eq_case %s repaired' % hs, 'DM': 'dm_eq_case repaired', 'UM': 'um_eq_case repaired true',
          'DW': 'dw_eq_case repaired', 'UW': 'uw_eq_case repaired true'}[cls]
     return '[[%s %s %s %s]]' % (t, n, la, lb)
+
+
+# ---- C09: conversions and edge-list constructors ----
+def cv_case(rng, cls, lk):
+    h = history(rng, cls, lk, maxops=14, reject_p=0.0, sizes=(0, 1, 2, 3, 3, 4))
+    if cls == 'D' and lk != 'none' and rng.random() < 0.7:
+        # make most reciprocal pairs carry the same label, so that "labelled as one of them" is unambiguous and the oracle speaks
+        head, body = h.split(':', 1)
+        ops = [o.strip() for o in body.split(';') if o.strip()]
+        ops = [('AR' + o[1:] if o.startswith('A ') and rng.random() < 0.3 else o) for o in ops]
+        ops = [o for o in ops if not o.startswith('SLB')]
+        h = head + ': ' + ' ; '.join(ops)
+    return 'CV ' + h
+
+def el_case(rng, cls, lk):
+    multi = cls in ('DM', 'UM'); weighted = cls in ('DW', 'UW')
+    n = rng.choice([0, 1, 2, 3, 4, 6, 9])
+    k = rng.randint(0, 8) if n else 0
+    ts = []
+    for _ in range(k):
+        if ts and rng.random() < 0.3:
+            i, j, _l = rng.choice(ts)
+            if rng.random() < 0.5: i, j = j, i
+        else:
+            i = rng.randrange(n); j = rng.choice([i, rng.randrange(n), rng.randrange(n)])
+        l = rng.randint(0, 3) if multi else rng.choice([-5, 0, 1, 6]) if weighted else rng.randint(0, 3)
+        ts.append((i, j, l))
+    return 'EL %s %s : %s' % (cls, lk, ' ; '.join('%d %d %d' % t for t in ts))
+
+def coq_term_conv(case):
+    head, body = case.split(':', 1)
+    t = head.split()
+    if t[0] == 'CV':
+        _, cls, lk, n = t
+        ops = [o.strip() for o in body.split(';') if o.strip()]
+        hs = 'false' if lk == 'none' else 'true'
+        if cls == 'D': return 'd_cv_case %s repaired %s [%s]' % (hs, n, '; '.join(coq_dop(o) for o in ops))
+        return 'u_cv_case %s repaired true %s [%s]' % (hs, n, '; '.join(coq_uop(o) for o in ops))
+    _, cls, lk = t
+    es = '[%s]' % '; '.join('(%s, %s, (%s)%%Z)' % tuple(o.split()) for o in body.split(';') if o.strip())
+    hs = 'false' if lk == 'none' else 'true'
+    f = {'D': 'd_el_case %s repaired' % hs, 'U': 'u_el_case %s repaired' % hs, 'DM': 'dm_el_case repaired', 'UM': 'um_el_case repaired',
+         'DW': 'dw_el_case repaired', 'UW': 'uw_el_case repaired'}[cls]
+    return '%s %s' % (f, es)
